@@ -102,8 +102,12 @@ def _emit_logs(task):
     F = flush stdout after printing, E<k> = k stderr lines, W = logger.warning record."""
     for d in task.beh.split()[1:]:
         kind, num = d[0], int(d[1:] or 1)
+        if kind == 'F':
+            sys.stdout.flush()
+            continue
         for i in range(num):
             msg = f'msg:{task.tid}:{kind}:{i}'
+            _verif.emit('lemit', t=task.tid, m=msg, k=kind)
             if kind == 'L':
                 labtech.logger.info(msg)
             elif kind == 'W':
@@ -112,10 +116,6 @@ def _emit_logs(task):
                 print(msg)
             elif kind == 'E':
                 print(msg, file=sys.stderr)
-            _verif.emit('lemit', t=task.tid, m=msg, k=kind)
-        if kind == 'F':
-            sys.stdout.flush()
-            _verif.emit('lflush', t=task.tid)
 
 
 def run_body(task):
